@@ -314,9 +314,15 @@ impl Consume for SenderFlowState {
     /// does not have any effect. Thus, this IS cancel safe.
     async fn consume(&self, item: Self::Item) -> Self::Outcome {
         loop {
+            // Create the `Notified` future before checking the credit. A `Notified`
+            // receives `notify_waiters()` calls from the moment it is created, so a
+            // grant that lands between the failed check and the wait is not missed.
+            let notified = self.notifier.notified();
             match consume_link_credit(&self.state().lock, item) {
                 Ok(outcome) => return outcome,
-                Err(_) => self.notifier.notified().await, // **NOT** cancel safe
+                Err(_) => {
+                    notified.await // **NOT** cancel safe
+                }
             }
         }
     }
